@@ -326,7 +326,7 @@ def r_create_replacement(ck: Checker) -> None:
 RULES = [
     Rule("C12.TABLE.process-rule", P, r_process_table),
     Rule("C12.minmax-agg", P, r_minmax_agg),
-    Rule("C12.simple", P, r_simple),
+    Rule("C12.simple", P + ("C07",), r_simple),
     Rule("C12.chain-guards", P + ("C20",), r_chain_guards),
     Rule("C12.TABLE.replacement", P, r_replacement_table),
     Rule("C12.char-vars", PG, r_char_vars),
